@@ -22,7 +22,7 @@ import (
 type timingIn struct {
 	Mode string `json:"mode"`
 	Kind string `json:"kind"` // "block" | "hol" | "backlog"
-	Call string `json:"call"` // block: read | write | writenobuf | open | accept
+	Call string `json:"call"` // block: read | write | open | accept
 	Rel  string `json:"rel"`  // block: releasing event
 	W    int    `json:"w"`
 	B    int    `json:"b"`
@@ -67,7 +67,7 @@ func openPair(p *pair) (a, b *multiplexing.Stream, err error) {
 // blockAttempt runs one attempt of a blocked-call scenario.
 func blockAttempt(in timingIn) map[string]any {
 	att := map[string]any{"blocked": false, "returned": false, "lat": 0, "err": "", "setup": ""}
-	gated := in.Call == "writenobuf"
+	gated := false
 	p := newPair(nil, gated, 0, in.W, in.B, in.Bufs, 0)
 	defer p.shutdown()
 	var a, b *multiplexing.Stream
@@ -97,13 +97,6 @@ func blockAttempt(in timingIn) map[string]any {
 			a.SetWriteDeadline(preDeadline)
 		}
 		go func() { _, err := a.Write(make([]byte, in.W+50)); finish(err) }()
-	case "writenobuf":
-		// delivery is gated, so OpenStream cannot complete: exhaust the write
-		// buffers instead with opens whose messages stay in flight... the carrier
-		// accepts writes, so buffers return; this variant blocks on the window of
-		// an unestablished peer instead and is kept for completeness.
-		att["setup"] = "unsupported"
-		return att
 	case "open":
 		go func() { _, err := p.mux[0].OpenStream(octx); finish(err) }()
 	case "accept":
